@@ -89,9 +89,10 @@ class CallsMixin:
         env = {}
         for n, a in zip(params, args):
             env[n] = a
-        if len(params) < len(args):
-            for k, a in enumerate(args):
-                env['arg%d' % k] = a
+        off = 1 if (params and params[0] == 'recv') else 0
+        for k, a in enumerate(args):
+            if k >= off:
+                env.setdefault('arg%d' % (k - off), a)
         ev = Ev(cx, st, env, con.pkg, None, con.imports)
         if con.assumed:
             cx.assumed_used.add(callee)
@@ -686,8 +687,7 @@ class CallsMixin:
                     new[p] = r
                 self.write_rows(child, res, new)
             child.regs[ins['name']] = res
-            cx.exec_from(child, fr, b, i + 1)
-        cx.fork_cond(st, [n <= sc, n > sc], cont)
+        cx.fork_cond(st, [n <= sc, n > sc], cont, lambda m: cx.exec_from(m, fr, b, i + 1))
         return 'forked'
 
 
